@@ -116,6 +116,20 @@ def roundtrip(run, vmf, opts: Dict[str, bool], engine: str, case: Any, features:
         run.violation(f'export raised {exc!r}', witness=traceback.format_exc()[-1500:], case=case, engine=engine, key='export-raises')
         return None
     run.count('exports')
+    # the same object exported again, this time into a file object: the identical text (export is not allowed to depend
+    # on how its output is collected or on having been run before), and nothing is returned
+    try:
+        buf = io.StringIO()
+        ret = vmf.export(buf, inc_version=False, minimal=minimal, disp_multiblend=multiblend)
+        if ret is not None or buf.getvalue() != text1:
+            k = next((i for i, (a, b) in enumerate(zip(text1, buf.getvalue())) if a != b), min(len(text1), len(buf.getvalue())))
+            run.violation('export into a file object differs from the text export() returned just before'
+                          + ('' if ret is None else ' (and returned a value)'),
+                          witness={'returned_text': text1[max(0, k - 150):k + 150], 'file_text': buf.getvalue()[max(0, k - 150):k + 150]},
+                          case=case, engine=engine, key='export-file-form-differs')
+        run.count('file_form_exports')
+    except Exception as exc:
+        run.violation(f'export(file) raised {exc!r}', witness=traceback.format_exc()[-1500:], case=case, engine=engine, key='export-raises')
     if not multiblend:
         strip_multiblend(before)
     normalise_multicolors(before, True)
@@ -227,7 +241,7 @@ def main(run, shard=(0, 1)) -> None:
             run.note_inconclusive(f'could not load seed document {path}: {exc!r}')
     probe.report(run)
     probe.check_reached(run)
-    run.require('exports', 'parses')
+    run.require('exports', 'parses', 'file_form_exports')
 
 
 def replay(run, data) -> None:
